@@ -44,7 +44,17 @@ class Coord:
     def __init__(self, rng, kind):
         self.kind = kind
         sc = 10.0 ** rng.uniform(-3, 3)
-        if kind == "G":
+        self.integral = bool(rng.random() < 0.2)
+        if self.integral:
+            # whole-number hyper-parameters (what a user types, or takes from an integer array)
+            if kind == "G":
+                self.mu, self.sigma = float(rng.integers(-100, 101)), float(rng.integers(1, 121))
+            elif kind == "E":
+                self.beta = float(rng.integers(1, 121))
+            else:
+                self.lo = float(rng.integers(-100, 51))
+                self.hi = self.lo + float(rng.integers(1, 71))
+        elif kind == "G":
             self.mu = rng.normal() * sc * rng.choice([0, 1, 10])
             self.sigma = sc * rng.uniform(0.3, 3)
         elif kind == "E":
@@ -108,6 +118,9 @@ def build_component(priors, kind, coords, idx, rng):
     """Instantiate the library class for one component; argument forms vary."""
     form = rng.choice(["array", "list"])
     conv = (lambda v: np.array(v, dtype=float)) if form == "array" else (lambda v: [float(t) for t in v])
+    if all(c.integral for c in coords):
+        dt = [None, np.int64, np.int8, np.int16, np.float32][int(rng.integers(5))]
+        conv = (lambda v: [int(t) for t in v]) if dt is None else (lambda v, dt=dt: np.array(v).astype(dt))
     if len(idx) == 1 and rng.random() < 0.3:
         conv = lambda v: float(v[0])  # noqa: E731 - scalar form
         ind = int(idx[0]) if rng.random() < 0.5 else [int(idx[0])]
@@ -325,6 +338,7 @@ def run_job(job, rec):
         coords = []
         for _ in range(n):
             co = Coord(rng, kind)
+            co.integral = False   # (rescaled below: no longer whole numbers)
             f = 10.0 ** rng.uniform(-ex, ex) if rng.random() < 0.5 else 10.0 ** (-ex if rng.random() < 0.5 else ex) * rng.uniform(0.5, 2)
             if kind == "G":
                 co.mu, co.sigma = co.mu * f, co.sigma * f
